@@ -6,6 +6,7 @@
 //!      the module list is [(mbase, msize), extra modules…]; modules without symbols are unknown to the supplier
 //!   G  Symbolizer::get_symbol_at_address(debug_file, debug_id, instr)   (module base 0, name only)
 //! case:  M <mbase> <msize> [X <k> (<base> <size> <hassym>)*k] Q <n> <instr>*n R <item>*   (see ocaml/c11/main.ml)
+//!        item `Y <bits>` sets the text style: 1 CRLF line ends, 2 upper-case hex, 4 a leading zero on hex fields
 //! answer: T<tables>;D<out>/S<idx>:<out>/G<name>;...;X<twin>    names are printed as the integer they encode.
 //!   X  twins of the file, parsed and queried again: the INLINE ranges of every FUNC block permuted (`order`), every FILE /
 //!      INLINE_ORIGIN line moved to the end (`move`): `Xok` when the tables and every D answer are identical, else
@@ -107,10 +108,27 @@ fn fmt_out(
     format!("fn={}|src={}|inl={}", f, s, i.join(","))
 }
 
+/// hexadecimal field in the style of the file: bit 1 = upper-case digits, bit 2 = one leading zero
+/// (never beyond the 16 / 8 digits hex_str::<u64> / <u32> read)
+fn hx(v: u64, style: u64, max_digits: usize) -> String {
+    let mut s = if style & 2 != 0 { format!("{:X}", v) } else { format!("{:x}", v) };
+    if style & 4 != 0 && s.len() < max_digits {
+        s.insert(0, '0');
+    }
+    s
+}
+
 fn render(t: &mut Toks) -> String {
     let mut text = String::from("MODULE Linux x86_64 ABCD1234 m1\n");
+    // text style (item `Y <bits>`, from there on): 1 = CRLF line ends (whole file), 2 = upper-case hex, 4 = a leading zero
+    let mut st = 0u64;
+    let mut crlf = false;
     while let Some(k) = t.opt() {
         match k {
+            "Y" => {
+                st = t.u64();
+                crlf = crlf || st & 1 != 0;
+            }
             "F" => {
                 let (id, name) = (t.u64(), t.u64());
                 writeln!(text, "FILE {} {}", id, self::name('s', name)).unwrap();
@@ -121,20 +139,20 @@ fn render(t: &mut Toks) -> String {
             }
             "P" => {
                 let (a, ps, name) = (t.u64(), t.u64(), t.u64());
-                writeln!(text, "PUBLIC {}{:x} {:x} {}", mflag(name), a, ps, self::name('p', name)).unwrap();
+                writeln!(text, "PUBLIC {}{} {} {}", mflag(name), hx(a, st, 16), hx(ps, st, 8), self::name('p', name)).unwrap();
             }
             "U" => {
                 let (a, s, ps, name) = (t.u64(), t.u64(), t.u64(), t.u64());
-                writeln!(text, "FUNC {}{:x} {:x} {:x} {}", mflag(name), a, s, ps, self::name('f', name)).unwrap();
+                writeln!(text, "FUNC {}{} {} {} {}", mflag(name), hx(a, st, 16), hx(s, st, 8), hx(ps, st, 8), self::name('f', name)).unwrap();
             }
             "Z" => {
                 // a FUNC line made over-long (> MAX_BUFFER_CAPACITY) by padding its name: the parse loop drops it
                 let (a, s, ps, name, len) = (t.u64(), t.u64(), t.u64(), t.u64(), t.usize());
-                writeln!(text, "FUNC {:x} {:x} {:x} {}{}", a, s, ps, self::name('f', name), "x".repeat(len)).unwrap();
+                writeln!(text, "FUNC {} {} {} {}{}", hx(a, st, 16), hx(s, st, 8), hx(ps, st, 8), self::name('f', name), "x".repeat(len)).unwrap();
             }
             "L" => {
                 let (a, s, ln, fl) = (t.u64(), t.u64(), t.u64(), t.u64());
-                writeln!(text, "{:x} {:x} {} {}", a, s, ln, fl).unwrap();
+                writeln!(text, "{} {} {} {}", hx(a, st, 16), hx(s, st, 8), ln, fl).unwrap();
             }
             "I" => {
                 let (d, cl, cf, og) = (t.u64(), t.u64(), t.u64(), t.u64());
@@ -142,17 +160,20 @@ fn render(t: &mut Toks) -> String {
                 write!(text, "INLINE {} {} {} {}", d, cl, cf, og).unwrap();
                 for _ in 0..k {
                     let (a, s) = (t.u64(), t.u64());
-                    write!(text, " {:x} {:x}", a, s).unwrap();
+                    write!(text, " {} {}", hx(a, st, 16), hx(s, st, 8)).unwrap();
                 }
                 text.push('\n');
             }
             "W" => {
                 let (ty, a, s, ps, tag) = (t.u64(), t.u64(), t.u64(), t.u64(), t.u64());
                 let (hp, rest) = if ty == 4 { (1, "$eip 4 + ^ =") } else { (0, "0") };
-                writeln!(text, "STACK WIN {:x} {:x} {:x} {:x} 0 {:x} 0 0 0 {} {}", ty, a, s, tag, ps, hp, rest).unwrap();
+                writeln!(text, "STACK WIN {:x} {} {} {} 0 {} 0 0 0 {} {}", ty, hx(a, st, 16), hx(s, st, 8), hx(tag, st, 8), hx(ps, st, 8), hp, rest).unwrap();
             }
             other => panic!("bad item {}", other),
         }
+    }
+    if crlf {
+        text = text.replace('\n', "\r\n");
     }
     text
 }
@@ -164,7 +185,7 @@ fn permuted(text: &str) -> String {
     const TOP: [&str; 6] = ["FUNC ", "PUBLIC ", "FILE ", "STACK ", "MODULE ", "INFO "];
     let mut out: Vec<String> = text.lines().map(|s| s.to_string()).collect();
     let flip = |l: &str| -> String {
-        let t: Vec<&str> = l.split(' ').collect();
+        let t: Vec<&str> = l.split(' ').filter(|x| !x.is_empty()).collect();
         let mut r: Vec<String> = t[..5].iter().map(|s| s.to_string()).collect();
         let pairs: Vec<&[&str]> = t[5..].chunks(2).collect();
         for p in pairs.iter().rev() {
